@@ -2,6 +2,7 @@
 """
 
 # Standard library import
+from copy import deepcopy
 from pathlib import Path, PosixPath
 from typing import OrderedDict, List, Union
 
@@ -59,6 +60,7 @@ def csv_(
         fields:     Dictionary with field name as key and format specifiers as values
     """
     file_path = Path(file_path)
+    fields = dict(fields)  # The format definitions are changed in the following: work on a copy
 
     if not file_path.parent.exists():
         file_path.parent.mkdir(parents=True, exist_ok=False)
@@ -81,6 +83,7 @@ def csv_(
 
     # Add date field to dataset
     if "date" not in dset.fields:
+        dset = deepcopy(dset)  # Necessary because Dataset is changed in the following
         dset.add_text("date", val=[d.strftime("%Y-%m-%d %H:%M:%S") for d in dset.time.datetime])
 
     # Generate output_list with tuples, which include field values for each row
